@@ -913,9 +913,11 @@ class TTNS(TTNBase):
             ttno = TTNO(self.basis, ttno)
 
         assert bra is None  # not implemented yet
-        basis_node = TreeNodeBasis([BasisDummy("expectation dummy")])
-        basis_node_ttns = basis_node
-        basis_node_ttno = basis_node.copy()
+        # each dummy root must carry as many quantum-number components as the tree it is put on top of
+        basis_node_ttns = TreeNodeBasis(
+            [BasisDummy("expectation dummy", sigmaqn=np.zeros((1, self.basis.qn_size), dtype=int))])
+        basis_node_ttno = TreeNodeBasis(
+            [BasisDummy("expectation dummy", sigmaqn=np.zeros((1, ttno.basis.qn_size), dtype=int))])
         basis_node_ttns.add_child(self.basis.root.copy())
         basis_node_ttno.add_child(ttno.basis.root.copy())
         basis_tree_ttns = BasisTree(basis_node_ttns)
